@@ -81,12 +81,15 @@ CLAIMED = {
                 note="Correctness at a threshold, matching scores and thresholds are named functions (C03/C06/C10); in __init__ the per-frame values are named functions "
                      "of (frame, previous frame, configuration). Not under contract: which score enters tp_matching_score per TP, _sum_clear and the scenario clauses "
                      "(perfect tracker, new id, exchange) - native harness (bounded).", ref="5/C05"),
-    "C11": dict(text="ClassificationAccuracy is verified: the counting loop (TP + FP = number of pairs, TP = number of label-correct pairs) and the four formulas "
-                     "with their range in [0,1] and the all-correct case. The identity-based pairing functions are checked on the real code exhaustively up to a "
-                     "stated bound (bounded stand-in, not counted as proved).",
-                note="Bounded part: all label assignments of up to 3 estimates x 3 ground truths over 2 camera frames, unique uuids, both uuid-first settings: each "
-                     "object used at most once, pairs within one camera frame, pairing rule respected, number of label-correct pairs maximal. list.remove on "
-                     "working copies in nested loops is outside the engine's list model.", ref="5/C11"),
+    "C11": dict(text="ClassificationAccuracy is verified: the counting loop (TP + FP = number of pairs, TP = number of label-correct pairs), the four formulas "
+                     "with their range in [0,1] and the all-correct case, and the constructor (per-frame lists are pooled once each, the caller's lists are untouched). "
+                     "_get_object_results_with_id is verified for all inputs with unique non-null uuids per side and camera: an estimate and a ground truth are paired "
+                     "iff they share uuid and camera, each object once, unpaired estimates are reported once without ground truth (not at all when a traffic-light "
+                     "leftover remains), inputs untouched. get_object_results sends ROI-less 2-D objects to the identity-based pairing (traffic lights to the "
+                     "label-then-uuid pairing). The traffic-light pairing itself is checked on the real code exhaustively up to a stated bound (bounded stand-in).",
+                note="Bounded part: _get_object_results_for_tlr (a greedy whose choices depend on the history of two working copies) and 'largest number of label-correct "
+                     "pairs': all label assignments of up to 3 estimates x 3 ground truths over 2 camera frames, unique uuids, both uuid-first settings; shared ids across cameras "
+                     "sampled. The working copies of _get_object_results_with_id are characterised positionally (rank-inverse ghost, pop carry facts, two proof hints).", ref="5/C11"),
     "C15": dict(text="check_thresholds / check_nested_thresholds / set_thresholds are verified over dynamically typed symbolic values (type tag, length, items, two "
                      "levels): a normal return guarantees one number per label (flat) or lists of exactly one number per label (nested), errors only for malformed "
                      "input; _check_tasks (task supported by the manager), PerceptionEvaluationConfig._extract_params (exactly one range kind for 3-D, mandatory "
